@@ -154,6 +154,21 @@ Proof.
   rewrite E. exact D4.
 Qed.
 
+Lemma draw_is_inverse_gamma : forall (lgam : R -> R) (a' b' t : R), 0 < b' -> 0 < t ->
+  is_derive (fun t => tau2_draw b' t) t (- b' / (t * t))
+  /\ gamma_logpdf lgam a' 1 (tau2_draw b' t) + ln (Rabs (- b' / (t * t))) = ig_logpdf lgam a' b' t
+  /\ tau2_draw b' (tau2_draw b' t) = t.
+Proof.
+  intros lgam a' b' t Hb Ht. split; [apply draw_derive; apply Rgt_not_eq; exact Ht|].
+  split; [apply draw_change_of_variables; assumption|apply draw_involutive; assumption].
+Qed.
+
+Lemma profile_difference : forall (lgam : R -> R) (a b q r lpd rest t0 t1 : R), t0 <> 0 -> t1 <> 0 ->
+  joint_tau2 lgam a b q r lpd rest t1 - joint_tau2 lgam a b q r lpd rest t0 = cond_diff a b q r t0 t1
+  /\ cond_diff a b q r t0 t1 = ig_diff (a_gibbs a r) (b_gibbs b q) t0 t1.
+Proof. intros. split; [apply cond_diff_spec; assumption|apply cond_diff_is_ig_diff]. Qed.
+
+
 (* ------------------------------------------------------------------------------------------ *)
 (* 3. the kernel: what it asks the gamma sampler for, and the law of what it returns            *)
 (* ------------------------------------------------------------------------------------------ *)
